@@ -63,10 +63,13 @@ def make_ops(rng, cfg, profile, tier):
             ops.append({'op': 'SIMULATE', 'a': [rng.randrange(1 << 16)]})
         elif r < 0.8:
             ops.append({'op': 'ESTIMATE', 'a': [rng.choice(ALGOS), rng.choice([0, 0, 2, 3])]})
-        elif r < 0.87:
+        elif r < 0.84:
             ops.append({'op': 'GET', 'a': []})
+        elif r < 0.87:
+            ops.append({'op': 'RANDOM_INIT', 'a': [rng.choice([1.5, 3.0, 0.75])]})
         elif r < 0.93:
-            ops.append({'op': 'FIX', 'a': [rng.randrange(64), round(rng.uniform(-1, 1), 2)]})
+            ops.append({'op': 'FIX', 'a': [rng.randrange(64), round(rng.uniform(-1, 1), 2),
+                                           rng.choice([None, None, 'prefix', 'suffix'])]})
         else:
             ops.append({'op': 'DUP_KIND', 'a': [rng.randrange(64)]})
     return ops
@@ -94,7 +97,8 @@ def nontrivial(spec, res):
 class Universe:
     def __init__(self, sess, name_map, reverse):
         self.sess = sess
-        self.map = name_map or {}
+        self.map = dict(name_map or {})
+        self.model_name = 'mB' if name_map else 'mA'
         self.reverse = reverse
         self.rebuild(first=True)
 
@@ -120,7 +124,7 @@ class Universe:
             forms['weight'] = self.w
         self.db = db.Database('n', sess.table.copy())
         self.b = bio.BIOGEME(self.db, forms, parameters=p)
-        self.b.modelName = 'mB' if self.map else 'mA'
+        self.b.modelName = self.model_name
 
     def vec(self, x):
         """x: dict A-name -> value, for the free parameters."""
@@ -147,6 +151,15 @@ class Session:
         self.U = [Universe(self, None, False), Universe(self, self.cfg['name_map'], True)]
         if self.cfg['order_reversing']:
             ctx.probe('order-reversing renaming')
+
+    @staticmethod
+    def _pair_of(label, names):
+        """The two parameter names of a row label 'a-b' of the second-order table (names may contain '-')."""
+        for x_ in names:
+            for y_ in names:
+                if label == f'{x_}-{y_}':
+                    return (x_, y_)
+        return (label, label)
 
     # -- reference -----------------------------------------------------------------------
     def free_names(self):
@@ -349,6 +362,24 @@ class Session:
                     ctx.fail('I03.results', f'estimates requested for {sub}: {dict(got_)}, the estimates are {dict(e_all)}')
                 if sub != sorted(sub) or len(sub) < len(names_u):
                     ctx.probe('estimates requested by name for a subset / another order')
+            # second-order statistics requested for a subset of the names, listed in any order: the same rows as in the
+            # full table
+            for r in (r0, r1):
+                names_u = list(r.data.betaNames)
+                if len(names_u) >= 2:
+                    rs_ = random.Random(len(names_u) * 17 + len(algo))
+                    sub = rs_.sample(names_u, rs_.randrange(2, len(names_u) + 1))
+                    full_ = r.get_correlation_results()
+                    part_ = r.get_correlation_results(subset=sub)
+                    want_rows = [lab for lab in full_.index if all(x_ in sub for x_ in self._pair_of(lab, names_u))]
+                    if sorted(part_.index) != sorted(want_rows):
+                        ctx.fail('I03.results', f'second-order statistics for {sub}: rows {sorted(part_.index)}, the full table '
+                                                f'has {sorted(want_rows)} for these parameters')
+                    for lab in want_rows:
+                        a_, b_ = full_.loc[lab].to_list(), part_.loc[lab].to_list()
+                        if any((x_ != y_) and not (x_ != x_ and y_ != y_) for x_, y_ in zip(a_, b_)):
+                            ctx.fail('I03.results', f'second-order statistics for {sub}: row {lab} differs from the full table')
+                    ctx.probe('second-order statistics requested for a subset of the names')
             p0 = r0.get_estimated_parameters(only_robust=False)
             p1 = r1.get_estimated_parameters(only_robust=False)
             if self.cfg.get('save_iter'):
@@ -433,9 +464,20 @@ class Session:
                 n = free[a[0] % len(free)]
                 v = self._feasible(n, a[1])
                 before = {m: s['value'] for m, s in self.store.items() if m != n}
+                mode = a[2] if len(a) > 2 else None
                 for u in self.U:
-                    u.ll.fix_betas({u.nm(n): v})
+                    if mode is None:
+                        u.ll.fix_betas({u.nm(n): v})
+                    elif mode == 'prefix':
+                        # the parameters NAMED in the dictionary (and only those) are renamed as well
+                        u.ll.fix_betas({u.nm(n): v}, prefix='fx_')
+                        u.map[n] = 'fx_' + u.nm(n)
+                    else:
+                        u.ll.fix_betas({u.nm(n): v}, suffix='_fx')
+                        u.map[n] = u.nm(n) + '_fx'
                     u.rebuild()
+                if mode:
+                    ctx.probe('fix_betas with a prefix / suffix and a partial dictionary')
                 self.store[n].update(value=v, free=False)
                 ctx.count('by_name_writes')
                 for u in self.U:
@@ -449,6 +491,28 @@ class Session:
                             ctx.fail('I03.partial', f'fix_betas({n}) changed the status of {m} ({u.nm(m)})')
                 self.check_store('fix_betas')
                 ctx.log(kind, n, v)
+        elif kind == 'RANDOM_INIT':
+            # random starting values: each parameter's value is drawn inside ITS OWN bounds (a missing bound is replaced
+            # by +/- the given number); fixed parameters are untouched; then the stored values are written back by name
+            dflt = a[0]
+            for u in self.U:
+                u.b.set_random_init_values(default_bound=dflt)
+                vals = u.b.get_beta_values()
+                for n in self.free_names():
+                    bd = self.store[n]['bounds'] or [None, None]
+                    lo = -dflt if bd[0] is None else bd[0]
+                    hi = dflt if bd[1] is None else bd[1]
+                    for what, v_ in (('get_beta_values()', float(vals[u.nm(n)])), ('the formula', float(u.betas[n].initValue))):
+                        if not (min(lo, hi) - 1e-12 <= v_ <= max(lo, hi) + 1e-12):
+                            ctx.fail('I03.bounds', f'set_random_init_values({dflt}): {what} holds {n} ({u.nm(n)}) = {v_!r}, '
+                                                   f'outside its own interval [{lo}, {hi}]')
+                for n, st in self.store.items():
+                    if not st['free'] and float(u.betas[n].initValue) != st['value']:
+                        ctx.fail('I03.partial', f'set_random_init_values changed the fixed parameter {n} ({u.nm(n)})')
+                u.b.change_init_values({u.nm(n): self.store[n]['value'] for n in self.free_names()})
+            ctx.count('by_name_writes')
+            self.check_store('set_random_init_values followed by change_init_values')
+            ctx.log(kind, dflt)
         elif kind == 'DUP_KIND':
             import biogeme.biogeme as bio
             import biogeme.database as db
